@@ -314,6 +314,7 @@ def search(ctx):
 
 
 def replay(ctx, rep):
+    ctx.driver = DRIVER   # the direct-call helpers also ask the model (built by the last full run)
     hits = []
     for v in rep.get("violations", []):
         c = v["case"]
